@@ -728,17 +728,16 @@ def r25_arg_flow(ctx):
     rule = "R25.restriction-flow"
     f = ctx.func("parsers.TimePointParser.get_info")
     rep.need_anchor(rule, "sibling matcher calls")
-    # the restriction variables: locals assigned lists of format / type keys
+    # the restriction variables: what the time matcher receives as
+    # bad_formats= / bad_types=
     var_of = {}
     for n in walk_no_nested(f.node):
-        if isinstance(n, ast.Assign) and isinstance(n.targets[0], ast.Name) \
-                and isinstance(n.value, ast.List) and n.value.elts and all(
-                    isinstance(e, ast.Constant) for e in n.value.elts):
-            vals = {e.value for e in n.value.elts}
-            if vals <= {"basic", "extended"}:
-                var_of["bad_formats"] = n.targets[0].id
-            elif vals <= {"truncated", "reduced", "complete"}:
-                var_of["bad_types"] = n.targets[0].id
+        if isinstance(n, ast.Call) and isinstance(n.func, ast.Attribute) \
+                and n.func.attr == "get_time_info":
+            for k in n.keywords:
+                if k.arg in ("bad_formats", "bad_types") and isinstance(
+                        k.value, ast.Name):
+                    var_of.setdefault(k.arg, k.value.id)
     for n in walk_no_nested(f.node):
         if isinstance(n, ast.Call) and isinstance(n.func, ast.Attribute) \
                 and n.func.attr in ("get_time_info", "get_time_zone_info"):
@@ -756,27 +755,41 @@ def r25_arg_flow(ctx):
                           n.func.attr, missing), ("C07",))
     # bad_formats is derived from the date's format key and emptied only for
     # truncated dates
-    sets = [n for n in walk_no_nested(f.node) if isinstance(n, ast.Assign)
-            and U(n.targets[0]) == var_of.get("bad_formats")]
-    vals = {}
-    for n in sets:
-        p = parent(n)
-        cond = None
-        if isinstance(p, ast.If) and any(n is b for b in p.body) and \
-                isinstance(p.test, ast.Compare) and isinstance(
-                    p.test.comparators[0], ast.Constant):
-            cond = p.test.comparators[0].value
-        elif isinstance(p, ast.If) and any(n is b for b in p.body):
-            cond = U(p.test)
-        vals[cond] = U(n.value)
-    good = vals.get("basic") == "['extended']" and \
-        vals.get("extended") == "['basic']" and all(
-            v != "[]" or c in (None, "truncated")
-            for c, v in vals.items())
-    rep.check(good, rule, ctx.fkey(f, None, "bad-formats"), f.loc(),
-              "a basic date excludes extended times/zones and vice versa; "
-              "the restriction is lifted only for truncated dates",
-              "bad_formats assignments are %s" % vals, ("C07",))
+    from ..flow import alternatives
+    alts = alternatives(f.node, var_of["bad_formats"]) \
+        if "bad_formats" in var_of else None
+    literal = bool(alts) and all(
+        isinstance(v, (ast.List, ast.Tuple)) and all(
+            isinstance(e, ast.Constant) for e in v.elts) for v, _ in alts)
+    if not alts:
+        rep.check(False, rule, ctx.fkey(f, None, "bad-formats"), f.loc(), "",
+                  "get_info passes no format restriction variable to the "
+                  "time matcher", ("C07",))
+    elif not literal:
+        rep.undecided(rule, ctx.fkey(f, None, "bad-formats"), f.loc(),
+                      "the format restriction is computed (%s), not chosen "
+                      "among literal lists: its dependence on the date's "
+                      "format key is not read by this rule" % sorted(
+                          {U(v)[:50] for v, _ in alts}), ("C07",))
+    else:
+        vals = {}
+        for v, conds in alts:
+            cond = None
+            for t, pol in conds:
+                if pol and isinstance(t, ast.Compare) and isinstance(
+                        t.comparators[0], ast.Constant) and isinstance(
+                            t.ops[0], ast.Eq):
+                    cond = t.comparators[0].value
+                    break
+            vals[cond] = "[%s]" % ", ".join(repr(e.value) for e in v.elts)
+        good = vals.get("basic") == "['extended']" and \
+            vals.get("extended") == "['basic']" and all(
+                v != "[]" or c in (None, "truncated")
+                for c, v in vals.items())
+        rep.check(good, rule, ctx.fkey(f, None, "bad-formats"), f.loc(),
+                  "a basic date excludes extended times/zones and vice "
+                  "versa; the restriction is lifted only for truncated dates",
+                  "bad_formats assignments are %s" % vals, ("C07",))
 
 
 # ------------------------------------------------------------------- R31
